@@ -292,6 +292,8 @@ def jobs(tier):
         for c in ("pos", "neg"):
             for k, part in enumerate(_split(s3, 4)):
                 J.append(Job("H3_plane:%s:1d:2box:3ops:%d" % (c, k), "h3_plane", {"config": c, "nbox": 2, "seqs": part, "oned": True}, 150))
+        # insertion order under re-insertion: every add/remove sequence of 5 operations over two boxes without a query (cheap: no symbolic query box)
+        J.append(Job("H3_plane:pos:1d:2box:order", "h3_plane", {"config": "pos", "nbox": 2, "seqs": [q for q in op_sequences(2, 5) if "f" not in q], "oned": True}, 150))
         for c in ("off", "tiny"):
             J.append(Job("H3_plane:%s:1d:1box:2ops" % c, "h3_plane", {"config": c, "nbox": 1, "seqs": [["a0", "f"]], "oned": True}, 100))
         for k in range(6):
